@@ -14,7 +14,7 @@ from symx.scalar import SymReal
 from .common import facts, far, lemma, simp, tensor_of, term_of
 
 PID = "C10"
-LEVEL = "other"
+LEVEL = "model_checking"
 CLAIM = (
     "Bounded symbolic verification of tf_pwa.phasespace.PhaseSpaceGenerator with tf.random.uniform replaced by a stub returning "
     "arbitrary reals in [0,1): for symbolic parent / daughter / intermediate masses and symbolic uniform variates z3 decides that "
